@@ -110,7 +110,56 @@ def impl_functions():
     fs['label_is_a_prefixed_uri'] = lambda strs, flag, opt: "1" if mk(strs)._is_a_prefixed_uri(strs[0]) else "0"
     fs['label_parse_prefixed_label'] = lambda strs, flag, opt: mk(strs)._parse_prefixed_label(strs[0])
     fs['parse_shape_map_label'] = lambda strs, flag, opt: mk(strs).parse_shape_map_label(strs[0])
+    nt = importlib.import_module("shexer.io.graph.yielder.nt_triples_yielder")
+    y = nt.NtTriplesYielder(raw_graph="")
+    for meth in ('_look_for_index_of_closing_quotes', '_look_for_last_index_before_blank', '_look_for_last_index_of_uri_token', '_look_for_last_index_of_bnode_token',
+                 '_look_for_last_index_of_unlabelled_number_token', '_look_for_last_index_of_literal_token'):
+        fs['nt' + meth] = (lambda m: lambda strs, flag, opt, num=0: str(_bounded(getattr(y, m), strs[0], num)))(meth)
+    fs['nt_look_for_tokens'] = lambda strs, flag, opt, num=0: "".join(t + "\x01" for t in _bounded(y._look_for_tokens, strs[0]))
     return fs
+
+
+class _Diverges(Exception):
+    pass
+
+
+def _bounded(f, *args):
+    """the real function under a 0.25 s alarm: the tokenizer's `while` loops have no bound (a datatype IRI without `>` restarts the scan for ever)"""
+    import signal
+
+    def on_alarm(signum, frame):
+        raise _Diverges()
+    old = signal.signal(signal.SIGALRM, on_alarm)
+    signal.setitimer(signal.ITIMER_REAL, 0.25)
+    try:
+        return f(*args)
+    finally:
+        signal.setitimer(signal.ITIMER_REAL, 0)
+        signal.signal(signal.SIGALRM, old)
+
+
+NT_FUNCS = ['nt_look_for_index_of_closing_quotes', 'nt_look_for_last_index_before_blank', 'nt_look_for_last_index_of_uri_token', 'nt_look_for_last_index_of_bnode_token',
+            'nt_look_for_last_index_of_unlabelled_number_token', 'nt_look_for_last_index_of_literal_token', 'nt_look_for_tokens']
+NT_PIECES = ['<http://e/a>', '<http://e/b#x>', '<', '>', '"', '"', '\\"', '\\\\', '\\', 'abc', ' ', ' ', '\t', '.', ' .', '@en', '@en-GB', '^^', '^^<http://e/dt>', '^^<', '^^xsd:integer',
+             '_:b1', '_:b.x', '_', '12', '3.5', '#', '# c', 'é', '\u2028', '\x85', '\x0c', '\xa0', "'", ':', '-']
+
+
+def gen_nt(rng):
+    name = rng.choice(NT_FUNCS)
+    if rng.random() < 0.5:        # a statement-shaped line with an awkward literal
+        lit = '"' + rstr(rng, ['a', ' ', '\\"', '\\\\', '@', '^^', '#', ' .', '<', '>', '.', 'é'], 0, 5) + '"' + rng.choice(['', '', '@en', '@en-GB', '^^<http://e/dt>', '^^xsd:int', '^^<http://e/dt', '^^'])
+        obj = rng.choice([lit, lit, lit, '<http://e/o>', '_:b2', '_:b.', '42', '4.5', '<http://e/o'])
+        line = rng.choice(['<http://e/s>', '_:s1', '<http://e/s']) + rng.choice([' ', '  ', '\t']) + '<http://e/p>' + rng.choice([' ', '\t ']) + obj + rng.choice([' .', '.', ' . # c', ' .#c', '', ' . # me@x "q"'])
+    else:
+        line = rstr(rng, NT_PIECES, 0, 7)
+    if name == 'nt_look_for_tokens':
+        return "G %s 0 %s" % (name, enc(line)), (name, [line], False, None, 0)
+    want = {'nt_look_for_index_of_closing_quotes': '"', 'nt_look_for_last_index_of_uri_token': '<', 'nt_look_for_last_index_of_literal_token': '"',
+            'nt_look_for_last_index_of_bnode_token': '_', 'nt_look_for_last_index_of_unlabelled_number_token': '0123456789',
+            'nt_look_for_last_index_before_blank': '_@^0123456789'}[name]
+    good = [i for i, c in enumerate(line) if c in want]
+    num = rng.choice(good) if good and rng.random() < 0.8 else rng.randint(-2, len(line) + 1)
+    return "G %s %d %s" % (name, num, enc(line)), (name, [line], False, None, num)
 
 
 ARITY = {'prefixize_shape_name_if_possible': 1, 'serializer_tune_token': 1, 'serializer_str_of_target_element': 3, 'label_is_a_prefixed_uri': 1, 'label_parse_prefixed_label': 1, 'parse_shape_map_label': 1, 'add_corners': 1, 'add_corners_if_needed': 1, 'add_corners_if_it_is_an_uri': 1, 'there_is_arroba_after_last_quotes': 1,
@@ -186,16 +235,23 @@ def run(rng, n, names=None, prebuilt=None):
     if not ok:
         return {"ok": False, "build_output": out, "cases": 0, "disagreements": [], "stats": {}}
     fs = impl_functions()
+    names_given = names
     names = [x for x in (names or list(ARITY)) if x in fs]
     lines, expect = [], []
     for _ in range(n):
         ln, e = gen_primitive(rng)
         lines.append(ln); expect.append(('P', ln, e))
-    for _ in range(n):
-        ln, (name, strs, flag, opt) = gen_function(rng, names)
+    for k in range(n):
+        num = None
+        if k % 4 == 3 and all(x in fs for x in NT_FUNCS) and (names_given is None or any(x in names_given for x in NT_FUNCS)):
+            ln, (name, strs, flag, opt, num) = gen_nt(rng)
+        else:
+            ln, (name, strs, flag, opt) = gen_function(rng, names)
         try:
-            r = fs[name](strs, flag, opt)
+            r = fs[name](strs, flag, opt) if num is None else fs[name](strs, flag, opt, num)
             e = ('str', r)
+        except _Diverges:
+            e = ('err', 'OutOfFuel')
         except (ValueError, RuntimeError, IndexError, KeyError) as ex:
             e = ('err', type(ex).__name__)
         except Exception as ex:   # anything else is outside the translated fragment's exception vocabulary
